@@ -149,8 +149,9 @@ class _Sub(ast.NodeTransformer):
 class _GenInterp(object):
     """Abstract run of the body of the table loop for one scenario (entry distinct or not).  Locals are resolved to the
     expressions that define them; the observable steps are recorded as events."""
-    def __init__(self, entry, distinct):
+    def __init__(self, entry, distinct, present=True):
         self.entry, self.distinct = entry, distinct
+        self.present = present          # is the 'distinct' key in the entry at all (absent means distinct)
         self.env = {}
         self.events = []
 
@@ -165,9 +166,25 @@ class _GenInterp(object):
         r = self.R(t)
         if isinstance(r, ast.UnaryOp) and isinstance(r.op, ast.Not):
             return not self.cond(r.operand)
+        if isinstance(r, ast.BoolOp):
+            for v in r.values:
+                c = self.cond(v)
+                if isinstance(r.op, ast.And) and not c:
+                    return False
+                if isinstance(r.op, ast.Or) and c:
+                    return True
+            return isinstance(r.op, ast.And)
         u = unparse(r)
         if u in ("%s.get('distinct', True)" % self.entry,):
             return self.distinct
+        if u == "%s.get('distinct')" % self.entry and self.present:
+            return self.distinct
+        if u == "%s['distinct']" % self.entry:
+            if not self.present:
+                raise _Undecided("%s read although the key may be missing (KeyError)" % u)
+            return self.distinct
+        if u in ("'distinct' in %s" % self.entry, "'distinct' not in %s" % self.entry):
+            return self.present == (" not in " not in u)
         if isinstance(r, ast.Compare) and len(r.ops) == 1 and isinstance(r.ops[0], (ast.Is, ast.IsNot)):
             l, rr = unparse(r.left), unparse(r.comparators[0])
             if l in ("window", "wsymm") and rr in ("window", "wsymm"):
@@ -236,6 +253,15 @@ class _GenInterp(object):
                     if len(ps) == 2 and unparse(lam.body) == "%s(%s)" % (ps[1], ps[0]):
                         self.events.append(("decorate", [unparse(self.R(x)) for x in self.seq(c.args[1])], self.txt(c.args[2])))
                         continue
+                # D2(D1(obj)): decorators applied by hand, innermost first
+                chain, cur = [], self.R(c)
+                while isinstance(cur, ast.Call) and len(cur.args) == 1 and not cur.keywords \
+                        and isinstance(cur.func, ast.Call):
+                    chain.append(unparse(cur.func))
+                    cur = cur.args[0]
+                if chain and isinstance(cur, ast.Subscript):
+                    self.events.append(("decorate", list(reversed(chain)), unparse(cur)))
+                    continue
                 raise _Undecided("call %s" % short(st))
             if isinstance(st, ast.If):
                 # "k not in entry: entry[k] = v"  is setdefault
@@ -328,12 +354,12 @@ def run(chk, repo):
     entry = loop[0].target.id
     Wg = W("_generate_window_strategies")
     S = "%s['names'][0]" % entry
-    for distinct in (True, False):
+    for distinct, present in ((True, True), (True, False), (False, True)):
         try:
-            ev = _GenInterp(entry, distinct).run(loop[0].body)
+            ev = _GenInterp(entry, distinct, present).run(loop[0].body)
         except _Undecided as ex:
             raise AnalysisError("_generate_window_strategies not interpretable (%s)" % ex)
-        tag = "[distinct=%s] " % distinct
+        tag = "[distinct=%s%s] " % (distinct, "" if present else ", key absent")
         stores = {e[1]: e[2] for e in ev if e[0] == "store"}
         chk.decide(stores.get("%s['sname']" % entry) == S, "C14.generate", Wg, tag + "%s['sname'] = %s" % (
             entry, stores.get("%s['sname']" % entry)), why="the generated function is named after the first alias", node=loop[0])
